@@ -195,7 +195,7 @@ func ruleCursorPrimitives(c *Ctx) {
 	// exact thresholds: a NOP is refused only for payload <= 0, a computed skip only when < 0, an element only when it
 	// ends beyond the tape (an element may end exactly at the end)
 	maskPrefix := fmt.Sprintf("(%d&", mask)
-	for _, fn := range []string{"Iter.Advance", "Iter.AdvanceInto", "Iter.AdvanceIter", "Iter.PeekNext", "Iter.PeekNextTag"} {
+	for _, fn := range []string{"Iter.Advance", "Iter.AdvanceInto", "Iter.AdvanceIter", "Iter.PeekNext", "Iter.PeekNextTag", "Object.NextElementBytes"} {
 		fd := p.Func(fn)
 		if fd == nil {
 			continue
